@@ -67,6 +67,10 @@ def split_bezier(c, deg):
     c.ensures('left-starts-at-P0', ops.eq(left[0], P[0]))
     c.ensures('right-ends-at-Pn', ops.eq(right[-1], P[-1]))
     c.ensures('pieces-meet-at-point(t)', ops.And(ops.eq(left[-1], right[0]), ops.eq(left[-1], bez.bern(P, t))))
+    # closed form of the de Casteljau points (this is the callee contract used at call sites)
+    sl, sr = bez.split_points(P, t)
+    c.ensures('left==closed-form', ops.eq(left, sl))
+    c.ensures('right==closed-form', ops.eq(right, sr))
     c.ensures('left(u)==curve(u*t)', ops.eq(bez.bern(left, u), bez.bern(P, u * t)))
     c.ensures('right(u)==curve(t+u*(1-t))', ops.eq(bez.bern(right, u), bez.bern(P, t + u * (1 - t))))
 
